@@ -421,3 +421,49 @@ def rule_partial_targets_pure(check, rule, module_names):
             else:
                 check.holds(rule, '%s %s' % (fi.loc(c), fi.key), 'partial(%s, ...): the target does not edit its bound arguments in place' % tgt.name, key=key)
     check.floor(rule, 'partial objects built from package functions', n, 2)
+
+
+def rule_partial_function_explicit(check, rule):
+    """C06.R11 (D51, known): for `functools.partial(f, ...)` discovery takes the wrapped function off the front of the list of positional
+    values and tells forwards() that one explicit positional argument less was passed (`len(<explicit arguments>) - using_partial`).  The
+    two agree only when the function was written out as the first explicit argument.  When the list it is popped from also holds the
+    values of `*args` (it was extended with them) and nothing establishes that an explicit argument exists, `partial(*args, **kwargs)` with a
+    known `*args` value pops the function out of the star value and the count becomes -1: mask(sig, -1) consumes every positional
+    parameter of the callee and the result is neither the declared forwarding nor the plain signature."""
+    import ast
+    from .index import norm
+    from .rules_classes import dominated_by
+    repo = check.repo
+    fi = repo.func('_autoforwards:forward_signatures')
+    check.analysed(fi)
+    pops = [x for x in ast.walk(fi.node) if isinstance(x, ast.Call) and isinstance(x.func, ast.Attribute) and x.func.attr == 'pop'
+            and len(x.args) == 1 and isinstance(x.args[0], ast.Constant) and x.args[0].value == 0 and isinstance(x.func.value, ast.Name)]
+    n = 0
+    for pop in pops:
+        lst = pop.func.value.id
+        extended = [x for x in ast.walk(fi.node) if isinstance(x, ast.Call) and isinstance(x.func, ast.Attribute) and x.func.attr == 'extend'
+                    and isinstance(x.func.value, ast.Name) and x.func.value.id == lst and x.lineno < pop.lineno]
+        if not extended:
+            continue
+        # the count handed to forwards(): `len(A) - <flag>`
+        for c in ast.walk(fi.node):
+            if not (isinstance(c, ast.Call) and norm(c.func).endswith('forwards') and len(c.args) >= 3):
+                continue
+            cnt = c.args[2]
+            if not (isinstance(cnt, ast.BinOp) and isinstance(cnt.op, ast.Sub) and isinstance(cnt.left, ast.Call) and norm(cnt.left.func) == 'len'
+                    and cnt.left.args and isinstance(cnt.left.args[0], ast.Name)):
+                continue
+            n += 1
+            explicit = cnt.left.args[0].id
+            key = 'partial-func-from-star|%s' % fi.key
+            st = '%s %s' % (fi.loc(pop), fi.key)
+            guarded = explicit == lst or dominated_by(fi, pop, lambda t, p: p and norm(t) in (explicit, 'len(%s)' % explicit, 'len(%s) > 0' % explicit))
+            if guarded:
+                check.holds(rule, st, 'the function of partial() is taken from the explicit arguments (%s is known not to be empty)' % explicit, key=key)
+            else:
+                check.violation(rule, st, 'the function of partial() is popped from %s, which also holds the values of *args, while the count handed to '
+                                'forwards() is %s: for partial(*args, **kwargs) with a known *args value the count is -1 and mask() consumes every '
+                                'positional parameter of the callee' % (lst, norm(cnt)), key=key,
+                                witness='def make(*args, **kwargs): return partial(*args, **kwargs)\ndef wrapper(p, *args, **kwargs): return make(callee, '
+                                        '*args, **kwargs)  -- sigtools.signature(wrapper) is (p, *rest, z=None) for callee(x, y, *rest, z)')
+    check.floor(rule, 'partial function/count pairs in forward_signatures', n, 1)
